@@ -92,7 +92,7 @@ def main():
                     lines = [l.strip() for l in out.splitlines() if l.startswith("  ")]
                     detected[pid] = lines[:4]
         finally:
-            run(["git", "-C", REPO, "checkout", "--", "."])
+            run(["git", "-C", REPO, "checkout", "--", "."]); run(["git", "-C", REPO, "clean", "-fdq"])
         ran.append("patch applied to /repo, all 20 quick checks run, patch undone (git checkout -- .)")
     result["detected_by"] = sorted(detected)
     result["reports"] = detected
